@@ -16,7 +16,7 @@ var zooValueKinds = []string{"int", "int", "str", "bytes", "float", "bool", "lis
 
 // c08Gen: a "function zoo" project plus an `all` target depending on everything.
 func c08Gen(r *rand.Rand, tier string) any {
-	o := genOpts{MaxTargets: 5, MaxMods: 3, Recursion: true, BigValues: true, Flags: true, GenSources: false}
+	o := genOpts{MaxTargets: 5, MaxMods: 3, Recursion: true, BigValues: true, Flags: true, GenSources: false, Exts: 20}
 	if tier == "thorough" {
 		o.MaxTargets = 8
 		o.MaxMods = 4
@@ -70,7 +70,7 @@ func c08Gen(r *rand.Rand, tier string) any {
 			}
 		}
 		if r.IntN(8) == 0 {
-			t.Refs = append(t.Refs, refSpec{Kind: "dag", Val: valueSpec{Kind: "int", V: r.IntN(40)}})
+			t.Refs = append(t.Refs, refSpec{Kind: "dag", Name: []string{"", "tuple"}[r.IntN(2)], Val: valueSpec{Kind: "int", V: r.IntN(40)}})
 		}
 		if r.IntN(6) == 0 && t.Form == "decorator" {
 			// a mutable default value that the body itself changes: the values the function
@@ -96,6 +96,12 @@ func c08Gen(r *rand.Rand, tier string) any {
 	}
 	for k := 0; k < len(items) && k < n; k++ {
 		sc.Ops = append(sc.Ops, opSpec{Op: "edit-item", Item: items[k], N: 1 + r.IntN(3)})
+	}
+	for e := range sc.Spec.Exts {
+		// a requirement moves to another version: the helpers loaded from it change
+		if sc.Spec.Exts[e].Sel >= 0 {
+			sc.Ops = append(sc.Ops, opSpec{Op: "bump-req", Item: fmt.Sprint(e), N: sc.Spec.Exts[e].Sel + 1 + r.IntN(len(extVersions)-1)})
+		}
 	}
 	return sc
 }
@@ -252,7 +258,7 @@ func c08Exec(scAny any, c *simcheck.Ctx) *simcheck.Violation {
 	// (d) changing any referenced item makes the referencing targets' fingerprints unequal
 	for i := range sc.Ops {
 		op := &sc.Ops[i]
-		if op.Op != "edit-item" {
+		if op.Op != "edit-item" && op.Op != "bump-req" {
 			continue
 		}
 		before := map[string]string{}
